@@ -118,7 +118,8 @@ def run(ctx):
                 pass
     # directed patterns first (they get the full sweep over every candidate of every choice)
     pats = [(p, None) for p in (r"a.b", r"^.{3}$", r"(.|x)y", r"[^a].", r"\w.\d", r"^id=.;$", r".+?-.*", r"[^\d\w]", r"[a-c.]z", r"(?:.a){2}",
-                                r"\.", r"[^.]")] + pats
+                                r"\.", r"[^.]", "[\ud800-\udbff]", "[\ud000-\ud900]x", "[\ud7fe-\ud801]{2}", "[\u0080-\uffff]{3}",
+                                "[\U00010000-\U0010ffff]", "[\x00-\x1f]+", "[a-\u00ff]{2,3}")] + pats
     reqs, exp, info = [], [], []
     for p, unsup in pats:
         pols = ["lo", "hi", "alt", "alt2", "rnd", "cmax", "cmin"]
